@@ -47,7 +47,16 @@ def gen_history(rng, tid, maxlen, maxcalls):
 
 def run_history(mapping, stream, arr, calls, tid):
     w = A.AsyncWorld(mapping, arr)
-    ev = w.run(calls)
+    meta = {'stream': stream, 'mode': 'unicode' if mapping.unicode_mode else 'bytes',
+            'arrivals': [(t, None if d is None else d.decode('latin-1')) for t, d in arr], 'calls': calls}
+    try:
+        ev = w.run(calls)
+    except RuntimeError as e:
+        # nothing more will ever arrive, no timer is pending, and an awaited call is still outstanding: with a finite
+        # timeout (every call of these histories has one) the blocking form returns TIMEOUT / EOF at this point
+        if 'virtual loop would block for ever' in str(e) and all(c.get('tmo', 'pos') in ('pos', 'zero', 'default', 'neg') for c in calls):
+            return {'id': tid, 'ev': [], 'hung': True, 'meta': meta}
+        raise
     return {'id': tid, 'ev': ev, 'meta': {'stream': stream, 'mode': 'unicode' if mapping.unicode_mode else 'bytes',
                                            'arrivals': [(t, None if d is None else d.decode('latin-1')) for t, d in arr],
                                            'calls': calls}}
@@ -305,6 +314,12 @@ def run(ctx):
     nex = len(traces)
     for i in range(3000 if quick else 60000):
         traces.append(gen_history(rng, nex + i, 8 if quick else 12, 4))
+    hung = [t for t in traces if t.get('hung')]
+    traces = [t for t in traces if not t.get('hung')]
+    for t in hung[:25]:
+        ctx.fail('C14:awaited-call-with-a-finite-timeout-never-returns', {'meta': t['meta']},
+                 detail={'calls': t['meta']['calls'], 'arrivals': t['meta']['arrivals']},
+                 signature={'tmo': sorted(set(c.get('tmo', 'pos') for c in t['meta']['calls'] if c.get('mode', 'async') == 'async'))})
     seen, uniq = set(), []
     for t in traces:
         k = json.dumps(t['ev'], sort_keys=True)
@@ -413,6 +428,10 @@ def replay(ctx):
     mapping = P.UNI if m['mode'] == 'unicode' else P.ASCII
     arr = [(t, None if x is None else x.encode('latin-1')) for t, x in m['arrivals']]
     tr = run_history(mapping, m['stream'], arr, m['calls'], 'replay')
+    if tr.get('hung'):
+        print('the awaited call never returns: nothing more can arrive and no timer is pending on the loop')
+        print('VIOLATION property=C14 replay=%s' % ctx.replay)
+        return 1
     v, _ = tracecheck.validate([tr], 'ExpectTrace', ctx.work, constants=TRACE_CONSTS, procs=1, tag='replay')
     for e in tr['ev']:
         print('   ', json.dumps(e))
